@@ -1,4 +1,4 @@
 CONSTANTS SeedNames = {"json", "yamlblock", "yamldocs", "yamlmerge", "dsv", "jq", "yamlflow"}  MaxSteps = 6  SwapSpan = 0
-SPECIFICATION Spec
+SPECIFICATION SimSpec
 INVARIANT Emit
 CHECK_DEADLOCK FALSE
